@@ -23,6 +23,10 @@ TB = [
     "(no downsampling loss), so a match is 'shares a hash'; gather output is produced with queries made of private hashes only; "
     "storage (zip file naming, SQLite UNIQUE(internal_location, md5sum)) is C10's subject: same-md5 members are kept out of "
     "zip-without-manifest and of one file of a SQLite manifest",
+    "command line (every tier): harness/adapters/select_cli.py calls sourmash.__main__.main(argv) in process for `sig extract` (every selector), "
+    "`sig check` (missing-values CSV, matching manifest, one or two databases), `sig grep` (-v, -i, --silent, --count, --csv), `search --picklist`, "
+    "`gather --picklist` over every container kind a path can load, and compares with the reference meaning of each selector; this pass is an "
+    "oracle test (no Lean model of the argument parsing / command glue)",
     "python csv, zipfile, sqlite3, json",
 ]
 AS = [
@@ -38,9 +42,12 @@ RULE = ("cases = a pool of 4-10 sketches with mixed k / molecule / scaled / num 
         "identifiers, empty names, same-content twins, md5-prefix collisions (cached pair search), 1-3 collections per case over all 13 "
         "container kinds, 0-3 picklists (every coltype x include/exclude; hand-written CSVs and CSVs written by the real manifest / "
         "search / prefetch / gather writers), chains of 1-3 select calls each followed by signatures() and half of the time a search; "
+        "a `twins` flavour puts same-hash / different-name sketches into the containers that filter loaded signatures (LinearIndex, "
+        "LazyLinearIndex, SBT, LCA) with name-type and tuple picklists separating them, include and exclude, each picklist object used by "
+        "several selects on several collections; "
         "the oracle recomputes the expected subset from the documented meaning of each criterion and coltype; "
         "non-trivial = >= 2 listed selections of different sizes; distinct = distinct op lists")
-FLAVOURS = ["mixed", "inplace", "sqlite", "picklists", "collide", "mixed", "picklists"]
+FLAVOURS = ["mixed", "inplace", "sqlite", "picklists", "collide", "twins", "mixed", "picklists"]
 
 
 def classify(case, impl, model, k):
@@ -51,8 +58,40 @@ def classify(case, impl, model, k):
 def extra(chk, pkg):
     chk.cov["md5_prefix_collisions"] = [(p["a"]["md5"], p["b"]["md5"]) for p in select.collisions()][:3]
     chk.cov["containers"] = list(select.ALL_KINDS)
+    cli_inprocess(chk, pkg, int(os.environ.get("VERIF_C12_CLI_QUICK", "26" if chk.tier == "quick" else "150")))
     if chk.tier == "thorough":
         cli_pass(chk, pkg, int(os.environ.get("VERIF_C12_CLI", "12")))
+
+
+def cli_inprocess(chk, pkg, n):
+    """every tier: `sig extract` / `sig check` / `sig grep` / `search --picklist` / `gather --picklist` run in process
+    (sourmash.__main__.main(argv)) over every container kind a path can load; outcome against the reference meaning of
+    each selector (harness/adapters/select_cli.py)"""
+    import json, subprocess
+    import common
+    root = os.path.join(common.BUILD, "tmp", f"c12-cliq-{os.getpid()}")
+    env = dict(os.environ, PYTHONPATH=pkg + os.pathsep + os.path.join(common.VERIF, "harness"), PYTHONHASHSEED="0")
+    r = subprocess.run([common.PY, os.path.join(common.VERIF, "harness", "adapters", "select_cli.py"), str(chk.seed), str(n), root],
+                       env=env, stdout=subprocess.PIPE, stderr=subprocess.PIPE, text=True, timeout=1500)
+    if r.returncode != 0:
+        chk.add_violation("crash", "C12:cli-inprocess-driver", "the in-process CLI pass died: " + r.stderr[-400:],
+                          {"stderr": r.stderr[-3000:]}, concrete=False)
+        return
+    res = json.loads(r.stdout.strip().split("\n")[-1])
+    okc = 0
+    dist = {}
+    for e in res:
+        chk.cov["evaluations"] += 1
+        dist[e["cmd"] + ":" + e["kind"]] = dist.get(e["cmd"] + ":" + e["kind"], 0) + 1
+        if e["status"] == "ok":
+            okc += 1
+        else:
+            chk.add_violation("oracle", e.get("signature", "C12:cli"),
+                              f"`sourmash {' '.join(str(a) for a in e.get('argv', []))[:200]}` on a {e['kind']} collection: "
+                              f"got {str(e.get('got'))[:220]}, the selectors mean {str(e.get('expect'))[:220]}. {e.get('detail', '')[:260]}", e)
+    chk.cov["cli_inprocess_ok"] = okc
+    chk.cov["cli_inprocess_cases"] = len(res)
+    chk.cov["cli_inprocess_distribution"] = dist
 
 
 CLI_DRIVER = r"""
